@@ -1801,7 +1801,38 @@ var ruleKeyM7 = &Rule{
 			}
 		}
 		nCalls := 0
-		for _, b := range f.Blocks {
+		// the re-scan and the private helpers of its package it hands the work to (two levels)
+		scan := []*ssa.Function{f}
+		for lvl, from := 0, 0; lvl < 2; lvl++ {
+			end := len(scan)
+			for _, g := range scan[from:end] {
+				for _, b := range g.Blocks {
+					for _, ins := range b.Instrs {
+						if call, ok := ins.(*ssa.Call); ok {
+							h := call.Call.StaticCallee()
+							if h == nil || h == chk || h.Blocks == nil || h.Pkg != f.Pkg || (h.Object() != nil && h.Object().Exported()) {
+								continue
+							}
+							dup := false
+							for _, x := range scan {
+								if x == h {
+									dup = true
+								}
+							}
+							if !dup {
+								scan = append(scan, h)
+							}
+						}
+					}
+				}
+			}
+			from = end
+		}
+		var allBlocks []*ssa.BasicBlock
+		for _, g := range scan {
+			allBlocks = append(allBlocks, g.Blocks...)
+		}
+		for _, b := range allBlocks {
 			for _, ins := range b.Instrs {
 				call, ok := ins.(*ssa.Call)
 				if !ok || call.Call.StaticCallee() != chk || len(call.Call.Args) < 2 {
@@ -1809,25 +1840,54 @@ var ruleKeyM7 = &Rule{
 				}
 				nCalls++
 				elem := call.Call.Args[1]
-				reset := setsTrueItself
-				for d := b; d != nil && !reset; d = d.Idom() {
-					for _, i2 := range d.Instrs {
-						if i2 == ins {
-							break
-						}
-						st, ok := i2.(*ssa.Store)
-						if !ok {
-							continue
-						}
-						fa, ok := st.Addr.(*ssa.FieldAddr)
-						if !ok || fa.X != elem || fieldName(fa.X.Type(), fa.Field) != "Valid" {
-							continue
-						}
-						if k, ok := st.Val.(*ssa.Const); ok && k.Value != nil && k.Value.Kind() == constant.Bool && constant.BoolVal(k.Value) {
-							reset = true
+				// a store of true into elem.Valid in a block that dominates the call; when the element is a parameter of a
+				// helper, the same at every call of the helper
+				var resetBefore func(at ssa.Instruction, elem ssa.Value, depth int) bool
+				resetBefore = func(at ssa.Instruction, elem ssa.Value, depth int) bool {
+					for d := at.Block(); d != nil; d = d.Idom() {
+						for _, i2 := range d.Instrs {
+							if i2 == at {
+								break
+							}
+							st, ok := i2.(*ssa.Store)
+							if !ok {
+								continue
+							}
+							fa, ok := st.Addr.(*ssa.FieldAddr)
+							if !ok || fa.X != elem || fieldName(fa.X.Type(), fa.Field) != "Valid" {
+								continue
+							}
+							if k, ok := st.Val.(*ssa.Const); ok && k.Value != nil && k.Value.Kind() == constant.Bool && constant.BoolVal(k.Value) {
+								return true
+							}
 						}
 					}
+					p, ok := elem.(*ssa.Parameter)
+					if !ok || depth > 2 || p.Parent() == f {
+						return false
+					}
+					pi := -1
+					for i, q := range p.Parent().Params {
+						if q == p {
+							pi = i
+						}
+					}
+					sites := 0
+					for _, g := range scan {
+						for _, gb := range g.Blocks {
+							for _, gi := range gb.Instrs {
+								if gc, ok := gi.(*ssa.Call); ok && gc.Call.StaticCallee() == p.Parent() && pi >= 0 && pi < len(gc.Call.Args) {
+									sites++
+									if !resetBefore(gc, gc.Call.Args[pi], depth+1) {
+										return false
+									}
+								}
+							}
+						}
+					}
+					return sites > 0
 				}
+				reset := setsTrueItself || resetBefore(ins, elem, 0)
 				key := fmt.Sprintf("KEY/M7:valid-reset#%d", nCalls)
 				if reset {
 					obs = append(obs, Ob{Key: key, Site: c.Pos(call.Pos()), Verdict: OK, Note: "the reference is marked valid before it is resolved again"})
@@ -1838,7 +1898,7 @@ var ruleKeyM7 = &Rule{
 			}
 		}
 		if nCalls == 0 {
-			obs = append(obs, Ob{Key: "KEY/M7:valid-reset", Site: c.Pos(f.Pos()), Verdict: UNDECIDED, Note: "ReanalyseReferInfo does not call CheckReferFile itself"})
+			obs = append(obs, Ob{Key: "KEY/M7:valid-reset", Site: c.Pos(f.Pos()), Verdict: UNDECIDED, Note: "neither ReanalyseReferInfo nor a private helper it calls calls CheckReferFile"})
 		}
 		return obs
 	},
